@@ -1,6 +1,1029 @@
 import OnetVerif.Model.C12
-/-! Property C12 — property theorems, negation witnesses, `_partial` variants and non-vacuity
-examples only (helper lemmas that need Mathlib go to OnetVerif/Proofs/). -/
+/-! Property C12 — generated trees are well-formed and have the documented shape.
+Property theorems, negation witness, `_partial` variants, non-vacuity examples and the lemmas they
+need (core Lean only). -/
 namespace C12
 
+/-! ### arithmetic helpers -/
+
+private theorem div_lo {N : Nat} (x : Nat) : N * (x / N) ≤ x := Nat.mul_div_le x N
+
+private theorem div_hi {N : Nat} (hN : 0 < N) (x : Nat) : x < N * (x / N) + N := by
+  have := Nat.lt_mul_div_succ x hN
+  rwa [Nat.mul_add, Nat.mul_one] at this
+
+private theorem div_eq_of_block {N : Nat} {x c : Nat} (lo : N * c ≤ x) (hi : x < N * c + N) : x / N = c := by
+  apply Nat.div_eq_of_lt_le
+  · rwa [Nat.mul_comm]
+  · rw [Nat.add_mul, Nat.one_mul, Nat.mul_comm]; exact hi
+
+/-! ### the n-ary generator equals the complete tree in breadth-first order -/
+
+/-- the first `m` nodes of the closed form -/
+def closedPrefix (N rootIdx n m : Nat) : Nodes :=
+  (List.range m).map fun i => ((i + rootIdx) % n, (i - 1) / N)
+
+/-- parents of nodes `1 … k` in the closed form -/
+def closedParents (N k : Nat) : List Nat := (List.range' 1 k).map fun j => (j - 1) / N
+
+private theorem closedPrefix_succ (N r n m : Nat) :
+    closedPrefix N r n (m + 1) = closedPrefix N r n m ++ [((m + r) % n, (m - 1) / N)] := by
+  simp [closedPrefix, List.range_succ]
+
+private theorem closedPrefix_length (N r n m : Nat) : (closedPrefix N r n m).length = m := by
+  simp [closedPrefix]
+
+private theorem closedPrefix_parents (N r n k : Nat) :
+    ((closedPrefix N r n (k + 1)).drop 1).map (·.2) = closedParents N k := by
+  induction k with
+  | zero => simp [closedPrefix, closedParents]
+  | succ k ih =>
+    rw [closedPrefix_succ, List.drop_append_of_le_length (by simp [closedPrefix_length]), List.map_append, ih]
+    simp [closedParents, List.range'_1_concat, Nat.add_comm]
+
+private theorem closedParents_succ (N k : Nat) : closedParents N (k + 1) = closedParents N k ++ [k / N] := by
+  simp [closedParents, List.range'_1_concat, Nat.add_comm]
+
+/-- how many of the nodes `1 … k` hang below position `c`, as long as `c`'s block is not yet over -/
+private theorem count_closed {N : Nat} (_hN : 0 < N) (c : Nat) :
+    ∀ k, k ≤ N * c + N → (closedParents N k).count c = k - N * c := by
+  intro k
+  induction k with
+  | zero => intro _; simp [closedParents]
+  | succ k ih =>
+    intro hk
+    rw [closedParents_succ, List.count_append, ih (by omega), List.count_singleton]
+    by_cases h : N * c ≤ k
+    · have : k / N = c := div_eq_of_block h (by omega)
+      simp [this]; omega
+    · have : k / N ≠ c := by
+        intro e
+        have := div_lo (N := N) k
+        rw [e] at this
+        exact h this
+      simp [this]; omega
+
+/-- in general a position never gets more than `N` children -/
+private theorem count_closed_le {N : Nat} (hN : 0 < N) (c k : Nat) : (closedParents N k).count c ≤ N := by
+  induction k with
+  | zero => simp [closedParents]
+  | succ k ih =>
+    by_cases hk : k + 1 ≤ N * c + N
+    · rw [count_closed hN c (k + 1) hk]; omega
+    · rw [closedParents_succ, List.count_append, List.count_singleton]
+      have : k / N ≠ c := by
+        intro e
+        have := div_hi hN k
+        rw [e] at this
+        omega
+      simp [this]; exact ih
+
+/-- when every recorded parent is at most `p` and precedes its child, the descendants of `p` are
+exactly its children -/
+private theorem descendants_length (p : Nat) :
+    ∀ (ps : List Nat) (j : Nat) (acc : List Nat), (∀ x ∈ acc, p < x) → (∀ q ∈ ps, q ≤ p) →
+      (∀ i q, ps[i]? = some q → q < j + i) →
+      (descendants p ps j acc).length = acc.length + ps.count p := by
+  intro ps
+  induction ps with
+  | nil => intro j acc _ _ _; simp [descendants]
+  | cons q rest ih =>
+    intro j acc hacc hle hlt
+    have hq : q ≤ p := hle q (by simp)
+    have hrest : ∀ i q', rest[i]? = some q' → q' < (j + 1) + i := by
+      intro i q' h
+      have := hlt (i + 1) q' (by simpa using h)
+      omega
+    have hle' : ∀ q' ∈ rest, q' ≤ p := fun q' h => hle q' (by simp [h])
+    unfold descendants
+    by_cases hqp : q = p
+    · have hj : p < j := by
+        have := hlt 0 q (by simp)
+        omega
+      rw [if_pos (Or.inl hqp), ih (j + 1) (acc ++ [j]) _ hle' hrest]
+      · simp [hqp]; omega
+      · intro x hx
+        simp only [List.mem_append, List.mem_singleton] at hx
+        rcases hx with hx | hx
+        · exact hacc x hx
+        · omega
+    · have : ¬ (q = p ∨ q ∈ acc) := by
+        intro h
+        rcases h with h | h
+        · exact hqp h
+        · have := hacc q h; omega
+      rw [if_neg this, ih (j + 1) acc hacc hle' hrest]
+      have : (q == p) = false := by simpa using hqp
+      simp [List.count_cons, this]
+
+private theorem subtreeCount_closed {N : Nat} (hN : 0 < N) (r n k : Nat) :
+    subtreeCount (closedPrefix N r n (k + 1)) ((k - 1) / N) = k - N * ((k - 1) / N) := by
+  unfold subtreeCount
+  rw [closedPrefix_parents, descendants_length]
+  · simp only [List.length_nil, Nat.zero_add]
+    apply count_closed hN
+    have := div_hi hN (k - 1)
+    omega
+  · intro x hx; simp at hx
+  · intro q hq
+    simp only [closedParents, List.mem_map, List.mem_range'_1] at hq
+    obtain ⟨j, hj, rfl⟩ := hq
+    exact Nat.div_le_div_right (by omega)
+  · intro i q h
+    simp only [closedParents, List.getElem?_map, Option.map_eq_some_iff] at h
+    obtain ⟨a, ha, rfl⟩ := h
+    have ha' : a = 1 + i := by
+      rw [List.getElem?_range'] at ha
+      · have := Option.some.inj ha; omega
+      · have := (List.getElem?_eq_some_iff.mp ha).1; simpa using this
+    subst ha'
+    have := Nat.div_le_self (1 + i - 1) N
+    omega
+
+/-- loop invariant of `GenerateNaryTreeWithRoot` after node `k` was added -/
+private def NaryInv (N r n k : Nat) (s : NarySt) : Prop :=
+  s.nodes = closedPrefix N r n (k + 1) ∧ s.parents ≠ [] ∧
+    s.parents ++ s.children = List.range' ((k - 1) / N) (k + 1 - (k - 1) / N)
+
+private theorem range'_head (a m : Nat) : List.range' a (m + 1) = a :: List.range' (a + 1) m := by
+  simp [List.range'_succ]
+
+private theorem naryStep_inv {N : Nat} (hN : 0 < N) (r n k : Nat) (s : NarySt) (h : NaryInv N r n k s) :
+    ∃ s', naryStep N r n s (k + 1) = some s' ∧ NaryInv N r n (k + 1) s' := by
+  obtain ⟨hnodes, hne, hq⟩ := h
+  have hc_lo := div_lo (N := N) (k - 1)
+  have hc_hi := div_hi hN (k - 1)
+  have hck : (k - 1) / N ≤ k := Nat.le_trans (Nat.div_le_self _ _) (by omega)
+  generalize hc : (k - 1) / N = c at *
+  -- the queue starts with c
+  have hlen : k + 1 - c = (k - c) + 1 := by omega
+  rw [hlen, range'_head] at hq
+  obtain ⟨p0, prest, hp⟩ : ∃ p0 prest, s.parents = p0 :: prest := by
+    cases hs : s.parents with
+    | nil => exact absurd hs hne
+    | cons a b => exact ⟨a, b, rfl⟩
+  rw [hp, List.cons_append, List.cons.injEq] at hq
+  obtain ⟨hp0, hrest⟩ := hq
+  subst hp0
+  have hcount : subtreeCount s.nodes p0 = k - N * p0 := by
+    rw [hnodes, ← hc]; exact subtreeCount_closed hN r n k
+  have hlen' : s.nodes.length = k + 1 := by rw [hnodes, closedPrefix_length]
+  have hnew : ∀ q, s.nodes ++ [((k + 1 + r) % n, q)] = closedPrefix N r n (k + 2) → True := fun _ _ => trivial
+  unfold naryStep
+  simp only [hp, hcount]
+  by_cases hfull : k - N * p0 = N
+  · -- the current parent is full: it leaves the queue
+    have hk : k = N * p0 + N := by omega
+    have hnext : k / N = p0 + 1 := div_eq_of_block (by rw [Nat.mul_add]; omega) (by rw [Nat.mul_add]; omega)
+    have hpos : 1 ≤ k - p0 := by
+      have : p0 + 1 ≤ N * p0 + N := by
+        have := Nat.mul_le_mul_right (p0 + 1) hN
+        rw [Nat.one_mul, Nat.mul_add, Nat.mul_one] at this
+        exact this
+      omega
+    obtain ⟨m, hm⟩ : ∃ m, k - p0 = m + 1 := ⟨k - p0 - 1, by omega⟩
+    rw [hm, range'_head] at hrest
+    simp only [hfull, if_true]
+    cases hpr : prest with
+    | nil =>
+      rw [hpr, List.nil_append] at hrest
+      simp only [List.isEmpty_nil, if_true, hrest]
+      refine ⟨_, rfl, ?_, by simp, ?_⟩
+      · rw [hnodes, show k + 1 + 1 = (k + 1) + 1 from rfl, closedPrefix_succ N r n (k + 1)]
+        simp [hnext]
+      · simp only [Nat.add_sub_cancel, hnext, hlen', List.nil_append]
+        rw [show k + 1 + 1 - (p0 + 1) = (m + 1) + 1 by omega, List.range'_1_concat (n := m + 1), range'_head]
+        simp; omega
+    | cons a b =>
+      rw [hpr] at hrest
+      simp only [List.cons_append, List.cons.injEq] at hrest
+      simp only [List.isEmpty_cons, Bool.false_eq_true, if_false]
+      refine ⟨_, rfl, ?_, by simp, ?_⟩
+      · rw [hnodes, show k + 1 + 1 = (k + 1) + 1 from rfl, closedPrefix_succ N r n (k + 1)]
+        simp [hnext, hrest.1]
+      · simp only [Nat.add_sub_cancel, hnext, hlen']
+        rw [show k + 1 + 1 - (p0 + 1) = (m + 1) + 1 by omega, List.range'_1_concat (n := m + 1), range'_head]
+        simp only [List.cons_append, List.cons.injEq, hrest.1, true_and]
+        rw [← List.append_assoc, hrest.2]
+        simp; omega
+  · -- the current parent takes the new node
+    have hk : k < N * p0 + N := by omega
+    have hnext : k / N = p0 := div_eq_of_block (by omega) hk
+    simp only [hfull, if_false, List.isEmpty_cons, Bool.false_eq_true]
+    refine ⟨_, rfl, ?_, by simp, ?_⟩
+    · rw [hnodes, show k + 1 + 1 = (k + 1) + 1 from rfl, closedPrefix_succ N r n (k + 1)]
+      simp [hnext]
+    · simp only [Nat.add_sub_cancel, hnext, hlen']
+      rw [show k + 1 + 1 - p0 = (k - p0 + 1) + 1 by omega, List.range'_1_concat (n := k - p0 + 1), range'_head]
+      simp only [List.cons_append, List.cons.injEq, true_and]
+      rw [← List.append_assoc, hrest]
+      simp; omega
+
+private theorem naryLoop_inv {N : Nat} (hN : 0 < N) (r n : Nat) :
+    ∀ (m k : Nat) (s : NarySt), NaryInv N r n k s →
+      ∃ s', naryLoop N r n (List.range' (k + 1) m) s = some s' ∧ NaryInv N r n (k + m) s' := by
+  intro m
+  induction m with
+  | zero => intro k s h; exact ⟨s, by simp [naryLoop], h⟩
+  | succ m ih =>
+    intro k s h
+    obtain ⟨s1, hs1, h1⟩ := naryStep_inv hN r n k s h
+    obtain ⟨s2, hs2, h2⟩ := ih (k + 1) s1 h1
+    refine ⟨s2, ?_, by rw [show k + (m + 1) = k + 1 + m by omega]; exact h2⟩
+    rw [range'_head]
+    simp only [naryLoop, hs1]
+    exact hs2
+
+/-- **the n-ary generator builds the complete N-ary tree in breadth-first order**: for every
+branching factor `N ≥ 1`, roster size `n ≥ 1` and root position, the node created `i`-th hosts
+roster member `(i + root) mod n` and hangs below the node created `(i − 1)/N`-th. -/
+theorem c12_nary_is_complete (N n rootIdx : Nat) (hN : 1 ≤ N) (hn : 1 ≤ n) (hr : rootIdx < n) :
+    genNary N (some rootIdx) n = .tree (naryClosed N rootIdx n) := by
+  have h0 : NaryInv N rootIdx n 0 { nodes := [(rootIdx, 0)], parents := [0], children := [] } := by
+    refine ⟨?_, by simp, ?_⟩
+    · simp [closedPrefix, Nat.mod_eq_of_lt hr]
+    · simp
+  obtain ⟨s, hs, hinv⟩ := naryLoop_inv hN rootIdx n (n - 1) 0 _ h0
+  simp only [genNary, Nat.zero_add] at hs ⊢
+  rw [hs]
+  simp only [Outcome.tree.injEq]
+  rw [hinv.1, show 0 + (n - 1) + 1 = n by omega]
+  rfl
+
+/-- asking for a root that is not in the roster yields no tree -/
+theorem c12_unknown_root_none (N n : Nat) : genNary N none n = .noTree := rfl
+
+/-- the closed form: size, root, roster positions, parent links -/
+theorem c12_nary_shape (N n rootIdx : Nat) (hn : 1 ≤ n) (hr : rootIdx < n) :
+    (naryClosed N rootIdx n).length = n ∧
+    (naryClosed N rootIdx n)[0]? = some (rootIdx, 0) ∧
+    (∀ i, i < n → (naryClosed N rootIdx n)[i]? = some ((i + rootIdx) % n, (i - 1) / N)) ∧
+    (∀ i m p, 1 ≤ i → (naryClosed N rootIdx n)[i]? = some (m, p) → p < i) := by
+  have h3 : ∀ i, i < n → (naryClosed N rootIdx n)[i]? = some ((i + rootIdx) % n, (i - 1) / N) := by
+    intro i hi
+    simp [naryClosed, hi]
+  refine ⟨by simp [naryClosed], ?_, h3, ?_⟩
+  · rw [h3 0 (by omega)]
+    simp [Nat.mod_eq_of_lt hr]
+  · intro i m p hi h
+    simp only [naryClosed, List.getElem?_map, Option.map_eq_some_iff] at h
+    obtain ⟨a, ha, he⟩ := h
+    have : a = i := by
+      rw [List.getElem?_range] at ha
+      · exact (Option.some.inj ha).symm
+      · have := (List.getElem?_eq_some_iff.mp ha).1; simpa using this
+    subst this
+    simp only [Prod.mk.injEq] at he
+    have := Nat.div_le_self (a - 1) N
+    omega
+
+/-- **levels are filled breadth-first, at most `N` children per node**: the children of the node
+at position `p` are exactly the positions `N·p+1 … N·p+N` (as far as they exist) -/
+theorem c12_nary_children_block (N : Nat) (hN : 1 ≤ N) (i p : Nat) (hi : 1 ≤ i) :
+    (i - 1) / N = p ↔ N * p + 1 ≤ i ∧ i ≤ N * p + N := by
+  constructor
+  · intro h
+    have h1 := div_lo (N := N) (i - 1)
+    have h2 := div_hi hN (i - 1)
+    rw [h] at h1 h2
+    omega
+  · intro ⟨h1, h2⟩
+    exact div_eq_of_block (by omega) (by omega)
+
+theorem c12_nary_branching (N n rootIdx : Nat) (hN : 1 ≤ N) (p : Nat) :
+    (((naryClosed N rootIdx n).drop 1).map (·.2)).count p ≤ N := by
+  cases n with
+  | zero => simp [naryClosed]
+  | succ k =>
+    have : naryClosed N rootIdx (k + 1) = closedPrefix N rootIdx (k + 1) (k + 1) := rfl
+    rw [this, closedPrefix_parents]
+    exact count_closed_le hN p k
+
+private theorem rot_mod {n r i : Nat} (hi : i < n) (hr : r < n) :
+    (i + r) % n = if i + r < n then i + r else i + r - n := by
+  split
+  · next h => exact Nat.mod_eq_of_lt h
+  · next h =>
+    rw [Nat.mod_eq_sub_mod (by omega)]
+    exact Nat.mod_eq_of_lt (by omega)
+
+/-- **exactly one node per roster member** (hence pairwise distinct node identifiers when the
+servers' keys are pairwise distinct): the positions ↦ members map is a bijection of `0 … n−1` -/
+theorem c12_nary_one_node_per_member (n rootIdx : Nat) (hr : rootIdx < n) :
+    (∀ i j, i < n → j < n → (i + rootIdx) % n = (j + rootIdx) % n → i = j) ∧
+    (∀ m, m < n → ∃ i, i < n ∧ (i + rootIdx) % n = m) := by
+  constructor
+  · intro i j hi hj h
+    rw [rot_mod hi hr, rot_mod hj hr] at h
+    split at h <;> split at h <;> omega
+  · intro m hm
+    by_cases h : rootIdx ≤ m
+    · exact ⟨m - rootIdx, by omega, by rw [rot_mod (by omega) hr]; split <;> omega⟩
+    · exact ⟨m + n - rootIdx, by omega, by rw [rot_mod (by omega) hr]; split <;> omega⟩
+
+/-- **binary and star are the special cases** `N = 2` and `N = n − 1` with the first server as root;
+the star is the root with every other server as its child, in roster order -/
+theorem c12_binary_star_special (n : Nat) (hn : 1 ≤ n) :
+    genBinary n = .tree (naryClosed 2 0 n) ∧
+    genStar n = .tree ((List.range n).map fun i => (i, 0)) := by
+  constructor
+  · exact c12_nary_is_complete 2 n 0 (by omega) hn (by omega)
+  · by_cases h1 : n = 1
+    · subst h1; rfl
+    · unfold genStar genNaryFirst
+      rw [c12_nary_is_complete (n - 1) n 0 (by omega) hn (by omega)]
+      simp only [naryClosed, Outcome.tree.injEq]
+      apply List.map_congr_left
+      intro i hi
+      have hi' : i < n := by simpa using hi
+      simp only [Nat.add_zero, Prod.mk.injEq]
+      exact ⟨Nat.mod_eq_of_lt hi', Nat.div_eq_of_lt (by omega)⟩
+
+/-- non-vacuity / sanity: seven servers, binary, root 3 -/
+example : genNary 2 (some 3) 7 = .tree [(3, 0), (4, 0), (5, 0), (6, 1), (0, 1), (1, 2), (2, 2)] := by decide
+
+/-- outside the domain of the statements above: a branching factor 0 with more than one server
+makes the loop index an empty slice -/
+example : genNary 0 (some 0) 3 = .panic := by decide
+
+/-! ### the big generator: shape -/
+
+/-- parent indices of the nodes of a new level: the `i`-th parent of a level of `L` parents appears
+`min N (rem·(i+1)/L)` times, where `rem` is what is left to create when its turn comes -/
+def levelParents (N L : Nat) : (i todo rem : Nat) → List Nat
+  | _, 0, _ => []
+  | i, todo + 1, rem =>
+    List.replicate (min N (rem * (i + 1) / L)) i ++ levelParents N L (i + 1) todo (rem - min N (rem * (i + 1) / L))
+
+/-- the documented level sizes after a level of `prev` nodes with `rem` nodes left: `N` times the
+previous level, or what is left -/
+def levelSizes (N : Nat) : (fuel prev rem : Nat) → List Nat
+  | 0, _, _ => []
+  | fuel + 1, prev, rem => if rem = 0 then [] else
+    min (N * prev) rem :: levelSizes N fuel (min (N * prev) rem) (rem - min (N * prev) rem)
+
+/-- the same, written with powers: level `k` holds `min (N^k) remaining` nodes -/
+def levelSizesPow (N : Nat) : (fuel k rem : Nat) → List Nat
+  | 0, _, _ => []
+  | fuel + 1, k, rem => if rem = 0 then [] else
+    min (N ^ k) rem :: levelSizesPow N fuel (k + 1) (rem - min (N ^ k) rem)
+
+private theorem lp_mem (N L : Nat) : ∀ todo i rem x, x ∈ levelParents N L i todo rem → i ≤ x ∧ x < i + todo := by
+  intro todo
+  induction todo with
+  | zero => intro i rem x h; simp [levelParents] at h
+  | succ t ih =>
+    intro i rem x h
+    simp only [levelParents, List.mem_append, List.mem_replicate] at h
+    rcases h with h | h
+    · omega
+    · have := ih _ _ _ h; omega
+
+private theorem lp_count_le (N L : Nat) : ∀ todo i rem p, (levelParents N L i todo rem).count p ≤ N := by
+  intro todo
+  induction todo with
+  | zero => intro i rem p; simp [levelParents]
+  | succ t ih =>
+    intro i rem p
+    simp only [levelParents, List.count_append, List.count_replicate]
+    by_cases h : i = p
+    · subst h
+      have : (levelParents N L (i + 1) t (rem - min N (rem * (i + 1) / L))).count i = 0 := by
+        apply List.count_eq_zero.mpr
+        intro hm
+        have := lp_mem N L _ _ _ _ hm
+        omega
+      simp [this]; omega
+    · have : (i == p) = false := by simpa using h
+      simp [this]; exact ih _ _ _
+
+private theorem lp_len_full (N L : Nat) (hL : 0 < L) : ∀ todo i rem, i + todo = L → N * todo ≤ rem →
+    (levelParents N L i todo rem).length = N * todo := by
+  intro todo
+  induction todo with
+  | zero => intro i rem _ _; simp [levelParents]
+  | succ t ih =>
+    intro i rem hiL hrem
+    have hNt : N * (t + 1) = N * t + N := Nat.mul_succ N t
+    have hq : N ≤ rem * (i + 1) / L := by
+      apply (Nat.le_div_iff_mul_le hL).mpr
+      have h1 : L ≤ (t + 1) * (i + 1) := by
+        have : t ≤ t * (i + 1) := Nat.le_mul_of_pos_right t (by omega)
+        rw [Nat.add_mul, Nat.one_mul]; omega
+      calc N * L ≤ N * ((t + 1) * (i + 1)) := Nat.mul_le_mul_left N h1
+        _ = (N * (t + 1)) * (i + 1) := (Nat.mul_assoc _ _ _).symm
+        _ ≤ rem * (i + 1) := Nat.mul_le_mul_right _ hrem
+    have hk : min N (rem * (i + 1) / L) = N := Nat.min_eq_left hq
+    simp only [levelParents, hk, List.length_append, List.length_replicate]
+    rw [ih (i + 1) (rem - N) (by omega) (by omega)]
+    omega
+
+private theorem lp_len_part (N L : Nat) (hL : 0 < L) : ∀ todo i rem, i + todo = L → rem ≤ N * todo →
+    (levelParents N L i todo rem).length = rem := by
+  intro todo
+  induction todo with
+  | zero => intro i rem _ h; simp [levelParents]; omega
+  | succ t ih =>
+    intro i rem hiL hrem
+    have hNt : N * (t + 1) = N * t + N := Nat.mul_succ N t
+    have hqle : rem * (i + 1) / L ≤ rem := by
+      apply Nat.div_le_of_le_mul
+      rw [Nat.mul_comm L rem]
+      exact Nat.mul_le_mul_left rem (by omega)
+    have hdiv : ∀ d, d * L ≤ rem * (i + 1) → d ≤ rem * (i + 1) / L := fun d h => (Nat.le_div_iff_mul_le hL).mpr h
+    have hd : ¬ rem ≤ N * t → rem - N * t ≤ rem * (i + 1) / L := by
+      intro htriv
+      -- d = rem − N·t lies in 1 … N and d·L ≤ rem·(i+1)
+      apply hdiv
+      generalize hdd : rem - N * t = d
+      have hremd : rem = N * t + d := by omega
+      have hdN : d ≤ N := by omega
+      have hL' : L = (i + 1) + t := by omega
+      rw [hremd, hL', Nat.mul_add, Nat.add_mul]
+      have h1 : d * t ≤ N * t := Nat.mul_le_mul_right t hdN
+      have h2 : N * t ≤ N * t * (i + 1) := Nat.le_mul_of_pos_right _ (by omega)
+      omega
+    simp only [levelParents, List.length_append, List.length_replicate]
+    generalize rem * (i + 1) / L = q at *
+    have hnext : rem - min N q ≤ N * t := by
+      by_cases hcase : N ≤ q
+      · rw [Nat.min_eq_left hcase]; omega
+      · rw [Nat.min_eq_right (by omega)]
+        by_cases htriv : rem ≤ N * t
+        · omega
+        · have := hd htriv; omega
+    rw [ih (i + 1) _ (by omega) hnext]
+    have : min N q ≤ rem := Nat.le_trans (Nat.min_le_right _ _) hqle
+    omega
+
+/-- a level of `L ≥ 1` parents with `rem` nodes left gets `min (N·L) rem` children -/
+private theorem lp_len (N L rem : Nat) (hL : 0 < L) : (levelParents N L 0 L rem).length = min (N * L) rem := by
+  by_cases h : N * L ≤ rem
+  · rw [lp_len_full N L hL L 0 rem (by omega) h, Nat.min_eq_left h]
+  · rw [lp_len_part N L hL L 0 rem (by omega) (by omega), Nat.min_eq_right (by omega)]
+
+/-! the loops of the generator, as far as the shape goes (whatever servers `pick` chooses) -/
+
+private theorem addChildren_spec (c : BigCfg) (pIdx m : Nat) :
+    ∀ k st acc st' acc', addChildren c pIdx m k st acc = some (st', acc') →
+      st'.total = st.total + k ∧ acc'.map (·.2) = acc.map (·.2) ++ List.replicate k pIdx := by
+  intro k
+  induction k with
+  | zero => intro st acc st' acc' h; simp [addChildren] at h; simp [h.1, h.2]
+  | succ k ih =>
+    intro st acc st' acc' h
+    simp only [addChildren] at h
+    split at h
+    · simp at h
+    · next r _ =>
+      obtain ⟨h1, h2⟩ := ih _ _ _ _ h
+      refine ⟨by simp [h1]; omega, ?_⟩
+      rw [h2]; simp [List.replicate_succ]
+
+private theorem addLevel_spec (c : BigCfg) (L : Nat) :
+    ∀ parents i st acc st' acc', addLevel c L parents i st acc = some (st', acc') →
+      st'.total = st.total + (levelParents c.N L i parents.length (c.nodes - st.total)).length ∧
+      acc'.map (·.2) = acc.map (·.2) ++ levelParents c.N L i parents.length (c.nodes - st.total) := by
+  intro parents
+  induction parents with
+  | nil => intro i st acc st' acc' h; simp [addLevel] at h; simp [levelParents, h.1, h.2]
+  | cons p rest ih =>
+    intro i st acc st' acc' h
+    obtain ⟨m, x⟩ := p
+    simp only [addLevel] at h
+    split at h
+    · simp at h
+    · next st1 acc1 h1 =>
+      obtain ⟨a1, a2⟩ := addChildren_spec c i m _ _ _ _ _ h1
+      obtain ⟨b1, b2⟩ := ih _ _ _ _ _ h
+      have hrem : c.nodes - st1.total = c.nodes - st.total - childCount c L i st.total := by rw [a1]; omega
+      simp only [List.length_cons, levelParents, List.length_append, List.length_replicate]
+      rw [hrem] at b1 b2
+      unfold childCount at a1 a2 b1 b2
+      refine ⟨by rw [b1, a1]; omega, ?_⟩
+      rw [b2, a2, List.append_assoc]
+
+/-- what `c12_big_*` say about the levels below a level `prev` -/
+def LevelsOK (N : Nat) : (prev : Level) → List Level → Prop
+  | _, [] => True
+  | prev, l :: ls => (∀ x ∈ l, x.2 < prev.length) ∧ (∀ p, (l.map (·.2)).count p ≤ N) ∧ LevelsOK N l ls
+
+private theorem bigLoop_spec (c : BigCfg) (hN : 1 ≤ c.N) :
+    ∀ fuel levels cur st out, bigLoop c fuel levels cur st = .tree out → st.total ≤ c.nodes → 1 ≤ cur.length →
+      ∃ more, out = levels ++ more ∧
+        more.map List.length = levelSizes c.N fuel cur.length (c.nodes - st.total) ∧
+        LevelsOK c.N cur more ∧ st.total + (more.map List.length).sum = c.nodes := by
+  intro fuel
+  induction fuel with
+  | zero =>
+    intro levels cur st out h htot _
+    simp only [bigLoop] at h
+    split at h
+    · simp at h
+    · simp only [Outcome.tree.injEq] at h
+      exact ⟨[], by simp [h], by simp [levelSizes], trivial, by simp; omega⟩
+  | succ fuel ih =>
+    intro levels cur st out h htot hcur
+    simp only [bigLoop] at h
+    split at h
+    · next hlt =>
+      split at h
+      · simp at h
+      · next st' nl hl =>
+        obtain ⟨a1, a2⟩ := addLevel_spec c cur.length cur 0 st [] st' nl hl
+        have hlen : nl.length = min (c.N * cur.length) (c.nodes - st.total) := by
+          have := congrArg List.length a2
+          simp only [List.map_nil, List.nil_append, List.length_map] at this
+          rw [this, lp_len c.N cur.length _ (by omega)]
+        rw [lp_len c.N cur.length _ (by omega)] at a1
+        have hpos : 1 ≤ c.N * cur.length := Nat.mul_le_mul hN hcur
+        obtain ⟨more, m1, m2, m3, m4⟩ := ih _ _ _ _ h (by rw [a1]; omega) (by rw [hlen]; omega)
+        refine ⟨nl :: more, by rw [m1]; simp, ?_, ⟨?_, ?_, m3⟩, ?_⟩
+        · have hne : c.nodes - st.total ≠ 0 := by omega
+          simp only [List.map_cons, levelSizes, hne, if_false, m2, hlen, a1]
+          congr 2; omega
+        · intro x hx
+          have : x.2 ∈ nl.map (·.2) := List.mem_map_of_mem hx
+          rw [a2] at this
+          have := lp_mem _ _ _ _ _ _ (by simpa using this)
+          omega
+        · intro p
+          rw [a2]; simp only [List.map_nil, List.nil_append]
+          exact lp_count_le _ _ _ _ _ _
+        · simp only [List.map_cons, List.sum_cons]
+          rw [a1] at m4; rw [hlen]; omega
+    · simp only [Outcome.tree.injEq] at h
+      have hz : c.nodes - st.total = 0 := by omega
+      exact ⟨[], by simp [h], by simp [levelSizes, hz], trivial, by simp; omega⟩
+
+private theorem levelSizes_pow (N : Nat) : ∀ fuel k rem,
+    levelSizes N fuel (N ^ k) rem = levelSizesPow N fuel (k + 1) rem := by
+  intro fuel
+  induction fuel with
+  | zero => intro k rem; rfl
+  | succ fuel ih =>
+    intro k rem
+    simp only [levelSizes, levelSizesPow]
+    have hp : N * N ^ k = N ^ (k + 1) := by rw [Nat.pow_succ, Nat.mul_comm]
+    rw [hp]
+    split
+    · rfl
+    · congr 1
+      by_cases h : N ^ (k + 1) ≤ rem
+      · rw [Nat.min_eq_left h]; exact ih _ _
+      · rw [Nat.min_eq_right (by omega)]
+        have : rem - rem = 0 := by omega
+        rw [this]
+        cases fuel <;> simp [levelSizes, levelSizesPow]
+
+/-- **shape of the big tree, whatever the hosts**: if `GenerateBigNaryTree(N, nodes)` returns
+(`N ≥ 1`, `nodes ≥ 1`) then the result is the root — the first server — followed by levels whose
+sizes are `min (N^k) remaining`, `nodes` nodes in all, every node's parent index lies in the
+previous level and no parent index occurs more than `N` times. -/
+theorem c12_big_shape (c : BigCfg) (hN : 1 ≤ c.N) (hnodes : 1 ≤ c.nodes) (lv : List Level)
+    (h : genBig c = .tree lv) :
+    ∃ more, lv = [(0, 0)] :: more ∧
+      more.map List.length = levelSizesPow c.N c.nodes 1 (c.nodes - 1) ∧
+      LevelsOK c.N [(0, 0)] more ∧ 1 + (more.map List.length).sum = c.nodes := by
+  unfold genBig at h
+  split at h
+  · simp at h
+  · obtain ⟨more, m1, m2, m3, m4⟩ := bigLoop_spec c hN _ _ _ _ _ h (by simpa using hnodes) (by simp)
+    refine ⟨more, by simpa using m1, ?_, m3, by simpa using m4⟩
+    have := levelSizes_pow c.N c.nodes 0 (c.nodes - 1)
+    simp only [Nat.pow_zero] at this
+    simpa [this] using m2
+
+/-- exactly `nodes` nodes -/
+theorem c12_big_size (c : BigCfg) (hN : 1 ≤ c.N) (hnodes : 1 ≤ c.nodes) (lv : List Level)
+    (h : genBig c = .tree lv) : (lv.map List.length).sum = c.nodes := by
+  obtain ⟨more, rfl, _, _, h4⟩ := c12_big_shape c hN hnodes lv h
+  simpa using h4
+
+/-- the root is the first server of the roster -/
+theorem c12_big_root (c : BigCfg) (hN : 1 ≤ c.N) (hnodes : 1 ≤ c.nodes) (lv : List Level)
+    (h : genBig c = .tree lv) : lv.head? = some [(0, 0)] := by
+  obtain ⟨more, rfl, _, _, _⟩ := c12_big_shape c hN hnodes lv h
+  rfl
+
+/-- at most `N` children per node, and every parent link points into the previous level -/
+theorem c12_big_branching (c : BigCfg) (hN : 1 ≤ c.N) (hnodes : 1 ≤ c.nodes) (lv : List Level)
+    (h : genBig c = .tree lv) : ∃ more, lv = [(0, 0)] :: more ∧ LevelsOK c.N [(0, 0)] more := by
+  obtain ⟨more, h1, _, h3, _⟩ := c12_big_shape c hN hnodes lv h
+  exact ⟨more, h1, h3⟩
+
+/-- level `k` holds `min (N^k) remaining` nodes -/
+theorem c12_big_levels (c : BigCfg) (hN : 1 ≤ c.N) (hnodes : 1 ≤ c.nodes) (lv : List Level)
+    (h : genBig c = .tree lv) : lv.map List.length = 1 :: levelSizesPow c.N c.nodes 1 (c.nodes - 1) := by
+  obtain ⟨more, rfl, h2, _, _⟩ := c12_big_shape c hN hnodes lv h
+  simp [h2]
+
+/-! ### the host-avoidance / use-all loop always ends; use-all uses every server once -/
+
+private theorem getD_set (l : List Bool) (i j : Nat) (v : Bool) :
+    (l.set i v).getD j false = if i = j ∧ i < l.length then v else l.getD j false := by
+  simp only [List.getD_eq_getElem?_getD, List.getElem?_set]
+  by_cases h : i = j
+  · subst h
+    by_cases h2 : i < l.length
+    · simp [h2]
+    · have : l[i]? = none := by simp; omega
+      simp [h2]
+  · simp [h]
+
+section pick
+variable (c : BigCfg) (used : List Bool) (ph first : Nat)
+
+private theorem pl_stop (fuel ro ch : Nat) (ns : Bool)
+    (h : ((ns && ch == ph && decide (c.ilLen > 1)) || (c.useAll && used.getD ro false)) = false) :
+    pickLoop c used ph first (fuel + 1) ro ch ns = some ro := by
+  simp only [pickLoop, h, Bool.false_eq_true, if_false]
+
+private theorem pl_go (fuel ro ch : Nat) (ns : Bool)
+    (h : ((ns && ch == ph && decide (c.ilLen > 1)) || (c.useAll && used.getD ro false)) = true) :
+    pickLoop c used ph first (fuel + 1) ro ch ns =
+      if (c.useAll && used.getD ((ro + 1) % c.ilLen) false) = true then
+        pickLoop c used ph first fuel ((ro + 1) % c.ilLen) ch (if (ro + 1) % c.ilLen == first then false else ns)
+      else if ((ro + 1) % c.ilLen == first) = true then some ((ro + 1) % c.ilLen)
+      else pickLoop c used ph first fuel ((ro + 1) % c.ilLen) (c.hosts.getD ((ro + 1) % c.ilLen) 0) ns := by
+  simp only [pickLoop, h, if_true]
+
+/-- phase 2 (same-host avoidance given up): walks to the next unused server -/
+private theorem pl_phase2 (hU : c.useAll = true) (hn : 0 < c.ilLen) :
+    ∀ j fuel ro ch, ro < c.ilLen → used.getD ((ro + j) % c.ilLen) false = false → j + 2 ≤ fuel →
+      ∃ r, pickLoop c used ph first fuel ro ch false = some r ∧ r < c.ilLen ∧ used.getD r false = false := by
+  intro j
+  induction j with
+  | zero =>
+    intro fuel ro ch hro hu hf
+    obtain ⟨f, rfl⟩ : ∃ f, fuel = f + 1 := ⟨fuel - 1, by omega⟩
+    rw [Nat.add_zero, Nat.mod_eq_of_lt hro] at hu
+    exact ⟨ro, pl_stop c used ph first f ro ch false (by rw [hU, hu]; rfl), hro, hu⟩
+  | succ j ih =>
+    intro fuel ro ch hro hu hf
+    obtain ⟨f, rfl⟩ : ∃ f, fuel = f + 1 := ⟨fuel - 1, by omega⟩
+    cases h0 : used.getD ro false with
+    | false => exact ⟨ro, pl_stop c used ph first f ro ch false (by rw [hU, h0]; rfl), hro, h0⟩
+    | true =>
+      have hro' : (ro + 1) % c.ilLen < c.ilLen := Nat.mod_lt _ hn
+      have hu' : used.getD (((ro + 1) % c.ilLen + j) % c.ilLen) false = false := by
+        rw [Nat.mod_add_mod, show ro + 1 + j = ro + (j + 1) by omega]; exact hu
+      rw [pl_go c used ph first f ro ch false (by rw [hU, h0]; rfl)]
+      have hns : (if (ro + 1) % c.ilLen == first then false else false) = false := by split <;> rfl
+      rw [hns]
+      cases h1 : used.getD ((ro + 1) % c.ilLen) false with
+      | true =>
+        rw [if_pos (by rw [hU]; rfl)]
+        exact ih f _ ch hro' hu' (by omega)
+      | false =>
+        rw [if_neg (by rw [hU]; simp)]
+        by_cases h2 : ((ro + 1) % c.ilLen == first) = true
+        · rw [if_pos h2]; exact ⟨_, rfl, hro', h1⟩
+        · rw [if_neg h2]; exact ih f _ _ hro' hu' (by omega)
+
+/-- phase 1 in use-all mode -/
+private theorem pl_phase1_all (hU : c.useAll = true) (hn : 0 < c.ilLen)
+    (hex : ∃ u, u < c.ilLen ∧ used.getD u false = false) :
+    ∀ k fuel ro ch, ro < c.ilLen → first = (ro + k) % c.ilLen → 1 ≤ k → k + c.ilLen + 3 ≤ fuel →
+      ∃ r, pickLoop c used ph first fuel ro ch true = some r ∧ r < c.ilLen ∧ used.getD r false = false := by
+  intro k
+  induction k with
+  | zero => intro _ _ _ _ _ h _; omega
+  | succ k ih =>
+    intro fuel ro ch hro hfirst _ hf
+    obtain ⟨f, rfl⟩ : ∃ f, fuel = f + 1 := ⟨fuel - 1, by omega⟩
+    have hro' : (ro + 1) % c.ilLen < c.ilLen := Nat.mod_lt _ hn
+    have hfirst' : first = ((ro + 1) % c.ilLen + k) % c.ilLen := by
+      rw [Nat.mod_add_mod, show ro + 1 + k = ro + (k + 1) by omega]; exact hfirst
+    have hk : ¬ ((ro + 1) % c.ilLen == first) = true → 1 ≤ k := by
+      intro hne
+      cases k with
+      | zero => rw [Nat.add_zero, Nat.mod_mod] at hfirst'; simp [hfirst'] at hne
+      | succ _ => omega
+    cases hc : ((true && ch == ph && decide (c.ilLen > 1)) || (c.useAll && used.getD ro false)) with
+    | true =>
+      rw [pl_go c used ph first f ro ch true hc]
+      cases h1 : used.getD ((ro + 1) % c.ilLen) false with
+      | true =>
+        rw [if_pos (by rw [hU]; rfl)]
+        by_cases h2 : ((ro + 1) % c.ilLen == first) = true
+        · rw [if_pos h2]
+          obtain ⟨u, hu, huu⟩ := hex
+          have hj : ∃ j, j < c.ilLen ∧ ((ro + 1) % c.ilLen + j) % c.ilLen = u := by
+            generalize (ro + 1) % c.ilLen = r' at hro'
+            by_cases hle : r' ≤ u
+            · exact ⟨u - r', by omega, by rw [show r' + (u - r') = u by omega]; exact Nat.mod_eq_of_lt hu⟩
+            · exact ⟨u + c.ilLen - r', by omega, by
+                rw [show r' + (u + c.ilLen - r') = u + c.ilLen by omega, Nat.add_mod_right]
+                exact Nat.mod_eq_of_lt hu⟩
+          obtain ⟨j, hjlt, hju⟩ := hj
+          exact pl_phase2 c used ph first hU hn j f _ ch hro' (by rw [hju]; exact huu) (by omega)
+        · rw [if_neg h2]
+          exact ih f _ ch hro' hfirst' (hk h2) (by omega)
+      | false =>
+        rw [if_neg (by rw [hU]; simp)]
+        by_cases h2 : ((ro + 1) % c.ilLen == first) = true
+        · rw [if_pos h2]; exact ⟨_, rfl, hro', h1⟩
+        · rw [if_neg h2]
+          exact ih f _ _ hro' hfirst' (hk h2) (by omega)
+    | false =>
+      have : used.getD ro false = false := by
+        cases hx : used.getD ro false with
+        | false => rfl
+        | true => rw [hU, hx] at hc; simp at hc
+      exact ⟨ro, pl_stop c used ph first f ro ch true hc, hro, this⟩
+
+/-- without use-all the loop comes back to where it started at the latest -/
+private theorem pl_phase1_nouse (hU : c.useAll = false) (hn : 0 < c.ilLen) :
+    ∀ k fuel ro ch, ro < c.ilLen → first = (ro + k) % c.ilLen → 1 ≤ k → k + 1 ≤ fuel →
+      ∃ r, pickLoop c used ph first fuel ro ch true = some r ∧ r < c.ilLen := by
+  intro k
+  induction k with
+  | zero => intro _ _ _ _ _ h _; omega
+  | succ k ih =>
+    intro fuel ro ch hro hfirst _ hf
+    obtain ⟨f, rfl⟩ : ∃ f, fuel = f + 1 := ⟨fuel - 1, by omega⟩
+    have hro' : (ro + 1) % c.ilLen < c.ilLen := Nat.mod_lt _ hn
+    have hfirst' : first = ((ro + 1) % c.ilLen + k) % c.ilLen := by
+      rw [Nat.mod_add_mod, show ro + 1 + k = ro + (k + 1) by omega]; exact hfirst
+    have hk : ¬ ((ro + 1) % c.ilLen == first) = true → 1 ≤ k := by
+      intro hne
+      cases k with
+      | zero => rw [Nat.add_zero, Nat.mod_mod] at hfirst'; simp [hfirst'] at hne
+      | succ _ => omega
+    cases hc : ((true && ch == ph && decide (c.ilLen > 1)) || (c.useAll && used.getD ro false)) with
+    | true =>
+      rw [pl_go c used ph first f ro ch true hc, if_neg (by rw [hU]; simp)]
+      by_cases h2 : ((ro + 1) % c.ilLen == first) = true
+      · rw [if_pos h2]; exact ⟨_, rfl, hro'⟩
+      · rw [if_neg h2]
+        exact ih f _ _ hro' hfirst' (hk h2) (by omega)
+    | false => exact ⟨ro, pl_stop c used ph first f ro ch true hc, hro⟩
+
+end pick
+
+/-- what the loops keep true about `used`, `roIndex`, `totalNodes`; `M` are the servers of all
+nodes created so far -/
+private def StOK (c : BigCfg) (st : BigSt) (M : List Nat) : Prop :=
+  st.used.length = c.ilLen ∧ st.roIndex < c.ilLen ∧
+  (c.useAll = true → st.used.count true = st.total ∧ M.Nodup ∧ ∀ r, r ∈ M ↔ st.used.getD r false = true)
+
+private theorem exists_unused : ∀ (l : List Bool), l.count true < l.length → ∃ u, u < l.length ∧ l.getD u false = false := by
+  intro l
+  induction l with
+  | nil => intro h; simp at h
+  | cons b bs ih =>
+    intro h
+    cases b with
+    | false => exact ⟨0, by simp, by simp⟩
+    | true =>
+      simp only [List.count_cons_self, List.length_cons] at h
+      obtain ⟨u, hu, hv⟩ := ih (by omega)
+      exact ⟨u + 1, by simp; omega, by simpa using hv⟩
+
+private theorem count_set_true : ∀ (l : List Bool) (r : Nat), r < l.length → l.getD r false = false →
+    (l.set r true).count true = l.count true + 1 := by
+  intro l r hr h
+  rw [List.count_set hr]
+  have : l[r] = false := by
+    rw [List.getD_eq_getElem?_getD, List.getElem?_eq_getElem hr] at h
+    simpa using h
+  simp [this]
+
+private theorem pick_ok (c : BigCfg) (st : BigSt) (M : List Nat) (ph : Nat) (hn : 0 < c.ilLen)
+    (hst : StOK c st M) (htot : st.total < c.nodes) :
+    ∃ r, pick c st ph = some r ∧ r < c.ilLen ∧ (c.useAll = true → st.used.getD r false = false) := by
+  obtain ⟨h1, h2, h3⟩ := hst
+  have hfirst : st.roIndex = (st.roIndex + c.ilLen) % c.ilLen := by
+    rw [Nat.add_mod_right, Nat.mod_eq_of_lt h2]
+  unfold pick
+  cases hU : c.useAll with
+  | true =>
+    obtain ⟨hc, _, _⟩ := h3 hU
+    have hlen : c.ilLen = c.nodes := by simpa [BigCfg.useAll] using hU
+    obtain ⟨u, hu, hv⟩ := exists_unused st.used (by omega)
+    obtain ⟨r, hr, hr1, hr2⟩ := pl_phase1_all c st.used ph st.roIndex hU hn ⟨u, by omega, hv⟩ c.ilLen (2 * c.ilLen + 3) st.roIndex
+      (c.hosts.getD st.roIndex 0) h2 hfirst (by omega) (by omega)
+    exact ⟨r, hr, hr1, fun _ => hr2⟩
+  | false =>
+    obtain ⟨r, hr, hr1⟩ := pl_phase1_nouse c st.used ph st.roIndex hU hn c.ilLen (2 * c.ilLen + 3) st.roIndex
+      (c.hosts.getD st.roIndex 0) h2 hfirst (by omega) (by omega)
+    exact ⟨r, hr, hr1, fun h => by simp at h⟩
+
+private theorem addChildren_ok (c : BigCfg) (pIdx m : Nat) (hn : 0 < c.ilLen) :
+    ∀ k st acc M, StOK c st M → st.total + k ≤ c.nodes →
+      ∃ st' acc', addChildren c pIdx m k st acc = some (st', acc') ∧
+        ∃ new, acc'.map (·.1) = acc.map (·.1) ++ new ∧ StOK c st' (M ++ new) := by
+  intro k
+  induction k with
+  | zero => intro st acc M h _; exact ⟨st, acc, rfl, [], by simp, by simpa using h⟩
+  | succ k ih =>
+    intro st acc M h htot
+    obtain ⟨r, hr, hr1, hr2⟩ := pick_ok c st M (c.hosts.getD m 0) hn h (by omega)
+    obtain ⟨h1, h2, h3⟩ := h
+    have hst1 : StOK c { used := st.used.set r true, roIndex := (r + 1) % c.ilLen, total := st.total + 1 } (M ++ [r]) := by
+      refine ⟨by simp [h1], Nat.mod_lt _ hn, ?_⟩
+      intro hU
+      obtain ⟨a1, a2, a3⟩ := h3 hU
+      have hunused := hr2 hU
+      refine ⟨?_, ?_, ?_⟩
+      · simp only; rw [count_set_true _ _ (by omega) hunused, a1]
+      · rw [List.nodup_append]
+        refine ⟨a2, by simp, ?_⟩
+        intro a ha b hb
+        simp only [List.mem_singleton] at hb
+        subst hb
+        intro e; subst e
+        have := (a3 a).mp ha
+        rw [hunused] at this; simp at this
+      · intro x
+        simp only [List.mem_append, List.mem_singleton, getD_set]
+        by_cases hx : r = x
+        · subst hx; simp [show r < st.used.length by omega]
+        · have : ¬ (r = x ∧ r < st.used.length) := fun h => hx h.1
+          simp only [this, if_false, ← a3 x]
+          constructor
+          · rintro (h | h)
+            · exact h
+            · exact absurd h.symm hx
+          · exact Or.inl
+    obtain ⟨st', acc', hs, new, hn1, hn2⟩ := ih _ (acc ++ [(r, pIdx)]) (M ++ [r]) hst1 (by simp; omega)
+    refine ⟨st', acc', by simp only [addChildren, hr]; exact hs, r :: new, ?_, ?_⟩
+    · rw [hn1]; simp
+    · simpa [List.append_assoc] using hn2
+
+private theorem childCount_le (c : BigCfg) (L i total : Nat) (hi : i + 1 ≤ L) :
+    childCount c L i total ≤ c.nodes - total := by
+  unfold childCount
+  apply Nat.le_trans (Nat.min_le_right _ _)
+  apply Nat.div_le_of_le_mul
+  rw [Nat.mul_comm L]
+  exact Nat.mul_le_mul_left _ hi
+
+private theorem addLevel_ok (c : BigCfg) (L : Nat) (hn : 0 < c.ilLen) :
+    ∀ parents i st acc M, StOK c st M → i + parents.length = L → st.total ≤ c.nodes →
+      ∃ st' acc', addLevel c L parents i st acc = some (st', acc') ∧
+        ∃ new, acc'.map (·.1) = acc.map (·.1) ++ new ∧ StOK c st' (M ++ new) := by
+  intro parents
+  induction parents with
+  | nil => intro i st acc M h _ _; exact ⟨st, acc, rfl, [], by simp, by simpa using h⟩
+  | cons p rest ih =>
+    intro i st acc M h hiL htot
+    obtain ⟨m, x⟩ := p
+    have hcc := childCount_le c L i st.total (by simp at hiL; omega)
+    obtain ⟨st1, acc1, h1, new1, hn1, hs1⟩ := addChildren_ok c i m hn (childCount c L i st.total) st acc M h (by omega)
+    have htot1 : st1.total ≤ c.nodes := by
+      have := (addChildren_spec c i m _ _ _ _ _ h1).1
+      omega
+    obtain ⟨st2, acc2, h2, new2, hn2, hs2⟩ := ih (i + 1) st1 acc1 (M ++ new1) hs1 (by simp at hiL; omega) htot1
+    refine ⟨st2, acc2, by simp only [addLevel, h1]; exact h2, new1 ++ new2, ?_, ?_⟩
+    · rw [hn2, hn1, List.append_assoc]
+    · simpa [List.append_assoc] using hs2
+
+/-- all servers placed on the nodes of these levels, in creation order -/
+def membersOf (lv : List Level) : List Nat := lv.flatten.map (·.1)
+
+
+private theorem getD_replicate_false (n i : Nat) : (List.replicate n false).getD i false = false := by
+  simp only [List.getD_eq_getElem?_getD, List.getElem?_replicate]
+  split <;> rfl
+
+private theorem init_ok (c : BigCfg) (hil : 0 < c.ilLen) :
+    StOK c { used := (List.replicate c.ilLen false).set 0 true, roIndex := 1 % c.ilLen, total := 1 }
+      (membersOf [[(0, 0)]]) := by
+  refine ⟨by simp, Nat.mod_lt _ hil, ?_⟩
+  intro _
+  refine ⟨?_, by simp [membersOf], ?_⟩
+  · rw [count_set_true _ _ (by simpa using hil) (getD_replicate_false _ _)]
+    simp [List.count_replicate]
+  · intro r
+    simp only [membersOf, List.flatten_cons, List.flatten_nil, List.append_nil, List.map_cons, List.map_nil,
+      List.mem_singleton, getD_set, List.length_replicate]
+    by_cases hr : 0 = r
+    · subst hr; simp [hil]
+    · have : ¬ (0 = r ∧ 0 < c.ilLen) := fun h => hr h.1
+      simp only [this, if_false, getD_replicate_false]
+      constructor
+      · intro h; exact absurd h.symm hr
+      · intro h; simp at h
+
+private theorem bigLoop_ok (c : BigCfg) (hN : 1 ≤ c.N) (hn : 0 < c.ilLen) :
+    ∀ fuel levels cur st, StOK c st (membersOf levels) → st.total ≤ c.nodes → 1 ≤ cur.length →
+      c.nodes - st.total ≤ fuel →
+      ∃ out st', bigLoop c fuel levels cur st = .tree out ∧ StOK c st' (membersOf out) ∧ st'.total = c.nodes := by
+  intro fuel
+  induction fuel with
+  | zero =>
+    intro levels cur st h htot _ hf
+    have : ¬ st.total < c.nodes := by omega
+    exact ⟨levels, st, by simp [bigLoop, this], h, by omega⟩
+  | succ fuel ih =>
+    intro levels cur st h htot hcur hf
+    by_cases hlt : st.total < c.nodes
+    · obtain ⟨st1, nl, h1, new, hn1, hs1⟩ := addLevel_ok c cur.length hn cur 0 st [] _ h (by omega) htot
+      obtain ⟨a1, a2⟩ := addLevel_spec c cur.length cur 0 st [] st1 nl h1
+      rw [lp_len c.N cur.length _ (by omega)] at a1
+      have hlen : nl.length = min (c.N * cur.length) (c.nodes - st.total) := by
+        have := congrArg List.length a2
+        simp only [List.map_nil, List.nil_append, List.length_map] at this
+        rw [this, lp_len c.N cur.length _ (by omega)]
+      have hpos : 1 ≤ c.N * cur.length := Nat.mul_le_mul hN hcur
+      have hmem : membersOf (levels ++ [nl]) = membersOf levels ++ new := by
+        simp only [membersOf, List.flatten_append, List.map_append, List.flatten_cons, List.flatten_nil,
+          List.append_nil]
+        simpa using hn1
+      obtain ⟨out, st', ho, hso, hto⟩ := ih (levels ++ [nl]) nl st1 (by rw [hmem]; exact hs1) (by omega)
+        (by rw [hlen]; omega) (by omega)
+      exact ⟨out, st', by simp only [bigLoop, hlt, if_true, h1]; exact ho, hso, hto⟩
+    · exact ⟨levels, st, by simp [bigLoop, hlt], h, by omega⟩
+
+/-- **the big generator always returns**: for `N ≥ 1` and a non-empty roster neither the
+host-avoidance loop nor the level loop can run for ever (and nothing indexes out of range) -/
+theorem c12_big_terminates (c : BigCfg) (hN : 1 ≤ c.N) (hn : 1 ≤ c.hosts.length) (hnodes : 1 ≤ c.nodes) :
+    ∃ lv, genBig c = .tree lv := by
+  have hil : 0 < c.ilLen := hn
+  have h0 := init_ok c hil
+  obtain ⟨out, _, ho, _, _⟩ := bigLoop_ok c hN hil c.nodes [[(0, 0)]] [(0, 0)] _ h0 (by simpa using hnodes) (Nat.le_refl 1) (Nat.sub_le _ _)
+  refine ⟨out, ?_⟩
+  unfold genBig
+  rw [if_neg (by omega)]
+  exact ho
+
+/-- **use-all**: when the requested number of nodes equals the roster size, every roster member is
+placed on exactly one node (whatever the hosts — use-all has preference over host avoidance) -/
+theorem c12_big_use_all (c : BigCfg) (hN : 1 ≤ c.N) (hall : c.nodes = c.hosts.length) (hnodes : 1 ≤ c.nodes)
+    (lv : List Level) (h : genBig c = .tree lv) :
+    (membersOf lv).Nodup ∧ (membersOf lv).length = c.hosts.length ∧ ∀ m, m < c.hosts.length → m ∈ membersOf lv := by
+  have hil : 0 < c.ilLen := by unfold BigCfg.ilLen; omega
+  have hU : c.useAll = true := by simp [BigCfg.useAll, BigCfg.ilLen, hall]
+  have h0 := init_ok c hil
+  obtain ⟨out, st', ho, hso, hto⟩ := bigLoop_ok c hN hil c.nodes [[(0, 0)]] [(0, 0)] _ h0 (by simpa using hnodes) (Nat.le_refl 1) (Nat.sub_le _ _)
+  have hlv : lv = out := by
+    unfold genBig at h
+    rw [if_neg (by omega)] at h
+    rw [ho] at h
+    exact (Outcome.tree.inj h).symm
+  subst hlv
+  obtain ⟨s1, _, s3⟩ := hso
+  obtain ⟨a1, a2, a3⟩ := s3 hU
+  have hsize := c12_big_size c hN hnodes lv h
+  have hlen : (membersOf lv).length = c.nodes := by
+    rw [← hsize, membersOf, List.length_map, List.length_flatten]
+  refine ⟨a2, by rw [hlen, hall], ?_⟩
+  intro m hm
+  -- all entries of `used` are true: their number equals the length
+  have hfull : st'.used.count true = st'.used.length := by rw [a1, hto, s1]; exact hall
+  apply (a3 m).mpr
+  have hmlt : m < st'.used.length := by rw [s1]; exact hm
+  cases hx : st'.used.getD m false with
+  | true => rfl
+  | false =>
+    exfalso
+    have := exists_unused st'.used
+    -- a false entry would make the count smaller than the length
+    have hcnt : st'.used.count true < st'.used.length := by
+      have hle := List.count_le_length (a := true) (l := st'.used)
+      have hm' : st'.used[m] = false := by
+        rw [List.getD_eq_getElem?_getD, List.getElem?_eq_getElem hmlt] at hx; simpa using hx
+      have : st'.used.count true ≠ st'.used.length := by
+        intro e
+        have := List.count_eq_length.mp e
+        have := this _ (List.getElem_mem hmlt)
+        rw [hm'] at this; simp at this
+      omega
+    omega
+
+/-! ### the known finding: the big generator places one server on several nodes -/
+
+/-- the node-identifier clause for the big generator.  A node id is a hash of its server's public
+key alone (`tree.go:893-903`, `C13.nodePre`), so the nodes of a tree have pairwise distinct ids
+exactly when no server hosts two of them.  With more nodes than servers that is impossible (and
+documented); the clause is stated for the case where it could hold. -/
+def C12_big_full : Prop :=
+  ∀ c : BigCfg, 1 ≤ c.N → 1 ≤ c.nodes → c.nodes ≤ c.hosts.length →
+    ∀ lv, genBig c = .tree lv → (membersOf lv).Nodup
+
+/-- **it fails**: five servers on two alternating hosts, `N = 3`, four nodes — host avoidance skips
+servers without the use-all bookkeeping, server 1 is placed twice, server 2 and 4 never.
+Replayed against `GenerateBigNaryTree` by the harness (`witness`). -/
+theorem c12_big_full_fails : ¬ C12_big_full := by
+  intro h
+  have := h { N := 3, nodes := 4, hosts := [0, 1, 0, 1, 0] } (by decide) (by decide) (by decide)
+    [[(0, 0)], [(1, 0), (3, 0), (1, 0)]] (by decide)
+  exact absurd this (by decide)
+
+/-- the design-phase witness: three servers, `N = 2`, seven nodes — three distinct node ids -/
+theorem c12_big_repeats_servers :
+    genBig { N := 2, nodes := 7, hosts := [0, 0, 0] } =
+      .tree [[(0, 0)], [(1, 0), (2, 0)], [(0, 0), (1, 0), (2, 1), (0, 1)]] := by decide
+
+/-- what holds instead (`_partial`): distinct node ids when the tree has exactly one node per
+server (`c12_big_use_all`), for every host layout -/
+theorem c12_big_distinct_partial (c : BigCfg) (hN : 1 ≤ c.N) (hall : c.nodes = c.hosts.length) (hnodes : 1 ≤ c.nodes)
+    (lv : List Level) (h : genBig c = .tree lv) : (membersOf lv).Nodup :=
+  (c12_big_use_all c hN hall hnodes lv h).1
+
+/-- non-vacuity of the big-generator theorems: the hypotheses are satisfiable and the call returns -/
+example : ∃ lv, genBig { N := 3, nodes := 13, hosts := [0, 1, 2, 0, 1] } = .tree lv :=
+  c12_big_terminates _ (by decide) (by decide) (by decide)
 end C12
